@@ -245,3 +245,60 @@ func VerifCronRestart() {
 	zzverif.Assert(zzverif.ThreadsAliveIs(0), "scheduler_and_jobs_gone_after_stop")
 	zzverif.Cover("cron_restart_done")
 }
+
+// vObsEvery: a fixed-period schedule that reports every call of Next. The scheduler calls Next once when it takes the
+// entry over and then once right after each start of the entry's job, in its own goroutine - so the calls mark the
+// instants at which starts are decided (the job's body runs later, in a goroutine of its own).
+type vObsEvery struct {
+	period time.Duration
+	onNext func()
+}
+
+func (s vObsEvery) Next(t time.Time) time.Time {
+	s.onNext()
+	return t.Add(s.period)
+}
+
+// Remove while the scheduler is waking up: the clock reaches an activation of the entry and, without waiting for the
+// scheduler to act on it, a client removes the entry (a second entry stays). The job may be started for that
+// activation before Remove returns, or not at all - but the scheduler never decides to start it after Remove has
+// returned, Entries called after Remove no longer lists it, and the other entry keeps its activations.
+//
+//verif:harness prop=C05 name=cron_remove_while_waking threads=6 sched=delay preempt=3 t_preempt=4 unwind=12 witness=lenient
+func VerifCronRemoveWhileWaking() {
+	start := zzverif.TimeFromNanos(1_000_000_000_000)
+	clk := zzverifstubs.NewClock(start)
+	c := New(WithClock(clk), WithLogger(vLogger{}), WithLocation(time.UTC))
+	p := time.Duration(1+zzverif.Choose("period", 2)) * time.Second
+	removed := false
+	nextCalls, decidedAfterRemove, runs, otherRuns := 0, 0, 0, 0
+	id := c.Schedule(vObsEvery{p, func() {
+		zzverif.Ghost(func() {
+			nextCalls++
+			if nextCalls > 1 && removed {
+				decidedAfterRemove++
+			}
+		})
+	}}, FuncJob(func() { zzverif.Ghost(func() { runs++ }) }))
+	c.Schedule(vEvery{p}, FuncJob(func() { zzverif.Ghost(func() { otherRuns++ }) }))
+	c.Start()
+	zzverif.WaitQuiescent()
+	clk.AdvanceTo(start.Add(p)) // both entries are due; the scheduler has been woken but may not have run yet
+	c.Remove(id)
+	zzverif.Ghost(func() { removed = true })
+	for _, e := range c.Entries() {
+		zzverif.Assert(e.ID != id, "removed_entry_not_listed")
+	}
+	zzverif.WaitQuiescent()
+	zzverif.Assert(decidedAfterRemove == 0, "no_start_decided_after_remove_returned")
+	zzverif.Assert(runs <= 1, "at_most_one_start_per_activation")
+	zzverif.Assert(otherRuns == 1, "other_entry_unaffected")
+	clk.AdvanceTo(start.Add(3 * p))
+	zzverif.WaitQuiescent()
+	zzverif.Assert(decidedAfterRemove == 0, "no_start_decided_after_remove_returned")
+	zzverif.Assert(runs <= 1, "no_start_after_remove")
+	zzverif.Assert(otherRuns == 2, "other_entry_unaffected")
+	ctx := c.Stop()
+	<-ctx.Done()
+	zzverif.Cover("cron_remove_while_waking_done")
+}
